@@ -32,6 +32,7 @@ def nontrivial(case, run, val):
 def features(case, run, val):
     f = ['groups' if any(case['grp']) else 'flat'] + sorted({'edge:' + e['kind'] for e in case['edges']})
     f.append('outcome:' + val.impl_kind)
+    if getattr(val, 'pull', False): f.append('premise pull_strict of C03_pulled_inputs_come_from_the_final_cache certified')
     return f
 
 
@@ -45,7 +46,8 @@ def run(out, info, tier, seed):
                                case_gen=lambda rng, k: gen.gen_parallel_case(rng) if k % 5 == 4 else gen.gen_case(rng, groups=True, clean=0.75),
                                ncases=(130, 2000), variants=[(True, True), (False, True), (True, False), (False, False)],
                                nontrivial=nontrivial, features=features, hyp=hyp, known_match=known_match,
-                               extra_obligations=[('Sched.DataP (buffer, cache, pruning lemmas)', 'Sched/DataP')])
+                               extra_obligations=[('Sched.DataP (buffer, cache, pruning lemmas)', 'Sched/DataP'),
+                                                  ('Sched.PullRun (whole-run characterisation of pulled inputs)', 'Sched/PullRun')])
     out.coverage['nontrivial_rule'] = 'some step received a value produced by another simulator'
 
 
